@@ -80,6 +80,7 @@ def step (_ : Unit) (w : List String) : Unit × String :=
       | none => ((), "unknown-pair")
     | _, _ => ((), "bad-op")
   | "pgnlist" :: _ => ((), "no-layout")
+  | "prodinfo" :: _ => ((), "no-layout")   -- PGN 126996 as the node sends it from its stored product information (C15 oracle only)
   | "sat" :: _ => ((), "no-layout")    -- repeated-record PGNs (Append… builders, loops): direct oracle of the C05 harness only
   | "wp" :: _ => ((), "no-layout")
   | "pgns" :: _ => ((), "no-layout")
